@@ -1823,6 +1823,13 @@ def _readsegment(
             result += before
             return after, result
 
+        # An error reply is a single line and never carries the end tokens:
+        # hand it to the caller instead of waiting for them until the timeout.
+        if buf.startswith((b"ERROR", b"CLIENT_ERROR", b"SERVER_ERROR")):
+            line_end = buf.find(b"\r\n")
+            if line_end != -1:
+                return buf[line_end + 2 :], buf[:line_end]
+
         # Keep what has been received so far: the end tokens may arrive in a
         # later chunk than the data, or be split across two chunks.
         chunk = _recv(sock, RECV_SIZE)
